@@ -262,6 +262,19 @@ static void body()
         vrt::distinct(vrt::fnv_u64(i, 62));
     });
 
+    // precision INT_MAX: snprintf itself fails (EOVERFLOW) and the library aborts - known finding K2
+    vrt::phase("libc_precision_limit", 1, [&](uint64_t, Rng &) {
+        vrt::st().assert_throws = true;
+        vrt::evals();
+        try {
+            ST::string s = ST::format("{.2147483647f}", 1.0);
+            (void)s;
+        } catch (const vrt::assertion_reached &a) {
+            vrt::violation(sfmt("C13:format:aborts:%s", a.message.c_str()), "ST::format(\"{.2147483647f}\", 1.0): snprintf returns -1 (EOVERFLOW) and the library asserts");
+        } catch (const std::exception &) { }
+        vrt::st().assert_throws = false;
+    });
+
     vrt::phase("format_random", vrt::tier_count(400000, 10000000), [&](uint64_t, Rng &r) {
         double v = pick_double(r);
         Spec s = pick_spec(r, v);
